@@ -173,7 +173,8 @@ def explain(case, res, bits):
                for k, s, src, t in res["annos"] if t is None]
     extra = ""
     if res["raised"]:
-        extra = f" raised {res['raised']}"
+        extra = (f" not repeatable: {res['raised']};" if res["raised"].startswith("generation")
+                 else f" raised {res['raised']}")
     if res.get("parse_error"):
         extra += " " + res["parse_error"]
     if not res["imports_ok"]:
